@@ -3,6 +3,11 @@ import CoreBGP.Props.DecTie
 namespace CoreBGP.Props.DecTieC11
 open CoreBGP CoreBGP.Model CoreBGP.Gen CoreBGP.Lemmas.DecTie CoreBGP.Props.DecTie
 
+/-! the generated table, evaluated (a changed decision of these functions is reported here) -/
+private theorem d_en0 : decision "peer.enableFSM" "if" 0 = .and (.cmp "==" "i" "out") (.atom "p.options.passive") := by decide
+private theorem d_en1 : decision "peer.enableFSM" "if" 1 = .cmp "==" "p.fsms[i]" "nil" := by decide
+private theorem d_dis0 : decision "peer.disableFSM" "if" 0 = .cmp "==" "p.fsms[i]" "nil" := by decide
+
 /-! ## C11: `enableFSM` / `disableFSM` guards -/
 
 def slotEnv (s : PState) (i : Dir) : Env :=
